@@ -14,7 +14,19 @@
    Strict = FALSE is the property-level acceptance: any batch composition is admitted (BatchWith with the recorded ids
    and row width), the results must be each line's own (tags, window, per-frame content, keep-set, digest).
    Strict = TRUE additionally demands the batch composition, row placement and window splitting of the design
-   (Batch action); the driver reports a trace that is accepted only with Strict = FALSE as MODEL-DRIFT.       *)
+   (Batch action); the driver reports a trace that is accepted only with Strict = FALSE as MODEL-DRIFT.
+
+   kind = "lb" is the execution described above.  kind = "pt" is one process_lines call of the real PytorchEngineLineOCR
+   (its own run_ocr and greedy CTC decoding into the engine's characters) around a TorchScript stub network whose frame f
+   is a function of the columns Sub*f .. Sub*f+Sub-1 of its own row: alpha / nsym = the engine's alphabet (characters
+   PtSym(alpha, k), k < nsym), res = per input position the transcription as character codes (txt), the window and the
+   arg-max class of every returned frame inside it (amax, counted from frame a0).  The network input is not recorded
+   for this kind; the clause PtLineOK is the statement itself: the line's own result, in the asked engine's own alphabet.
+   Both kinds are also recorded from SESSIONS (harness/lb_common.py run_session): several calls on long-lived engine
+   objects of one process, other engines and a failing call in between, list objects handed in again.  The history is
+   deliberately NOT an input of any clause here - a result may depend on the image (and the engine asked) only - so a
+   trace from the n-th call of a session is judged exactly like a call on a fresh engine; TLC does not enumerate
+   histories, the driver samples them.                                                                        *)
 EXTENDS LineBatcher, TraceKit
 CONSTANT Strict
 VARIABLES tid, checked
@@ -112,9 +124,50 @@ TrfLineOK(i) ==
                               IN b >= 0 /\ SmallOK(run[6], TS4(i), sum) /\ SmallOK(run[7], TS5(i), sum)
                /\ Strict => (r.frames = nblk /\ \A j \in 1..Len(r.lruns) : r.lruns[j][4] = 0)
 
-LineOK(i) == IF Transformer THEN TrfLineOK(i) ELSE CtcLineOK(i)
+\* ---- kind "pt": the real PytorchEngineLineOCR around a stub network ---------------------------------------------------
+IsPt == Tr.kind = "pt"
+PtSym(a, k) == 2048 * a + k                 \* character code (relative to lb_common.ABASE) of symbol k of alphabet a
+\* the columns of line i that the network can see: the crop starts at column Pad of its row and rows are at most 480 * bs wide
+\* (lines beyond the engine maximum are truncated there); to the right of the line there is padding only
+PtVis(i) == MinOf(w[i], 480 * bs - Pad)
+\* class of network frame f of the row holding line i alone: nsym (blank) where the frame sees padding only
+PtLab(i, f) == LET lo == MaxOf(Sub * f, Pad)
+                   hi == MinOf(Sub * f + Sub, Pad + PtVis(i))            \* exclusive
+               IN IF hi <= lo THEN Tr.nsym
+                  ELSE (577 * i + 37 * ((hi - Pad - 1) \div 8)) % Tr.nsym
+\* greedy CTC decoding of frames f .. nf-1 (prev = class of frame f-1): a symbol per run of equal non-blank classes, as
+\* characters of the engine's own alphabet
+RECURSIVE PtDecode(_, _, _, _)
+PtDecode(i, f, prev, nf) ==
+    IF f >= nf THEN <<>>
+    ELSE LET c == PtLab(i, f)
+         IN (IF c # prev /\ c # Tr.nsym THEN <<PtSym(Tr.alpha, c)>> ELSE <<>>) \o PtDecode(i, f + 1, c, nf)
+PtText(i) == PtDecode(i, 0, Tr.nsym, (Pad + PtVis(i)) \div Sub + 1)
+PtLineOK(i) ==
+    LET r == Tr.res[i]
+        nt == Pad + w[i] <= 480 * bs
+        eLo == Pad \div Sub
+        eHi == (Pad + w[i]) \div Sub
+        exp == PtText(i)
+    IN /\ r.tlen = Len(exp) /\ Len(r.txt) = Len(exp)
+       /\ \A k \in 1..Len(exp) : r.txt[k] = exp[k]
+       /\ IF Md.nolog = 1 THEN r.cs = 0 /\ r.lk = 0
+          ELSE /\ r.lk = 1
+               /\ IF Md.tight = 1
+                  THEN /\ r.cs = 1 /\ r.a0 = 0
+                       /\ nt => r.frames = eHi - eLo
+                       /\ Len(r.amax) = r.frames
+                       /\ \A k \in 1..Len(r.amax) : r.amax[k] = PtLab(i, eLo + k - 1)
+                  ELSE /\ r.cs = 2
+                       /\ nt => (r.lo = eLo /\ r.hi = eHi /\ r.hi <= r.frames)
+                       /\ r.lo >= 0 /\ r.a0 = r.lo
+                       /\ Len(r.amax) = MaxOf(MinOf(r.hi, r.frames) - r.lo, 0)
+                       /\ \A k \in 1..Len(r.amax) : r.amax[k] = PtLab(i, r.a0 + k - 1)
 
-Consumed == Tr.outcome = "ok" /\ Len(batches) = Len(Tr.batches) /\ pending = <<>> /\ Len(Tr.res) = Len(w)
+LineOK(i) == IF IsPt THEN PtLineOK(i) ELSE IF Transformer THEN TrfLineOK(i) ELSE CtcLineOK(i)
+
+Consumed == /\ Tr.outcome = "ok" /\ Len(batches) = Len(Tr.batches) /\ Len(Tr.res) = Len(w)
+            /\ IsPt \/ pending = <<>>
 TCheck == /\ Consumed /\ checked < Len(w)
           /\ LineOK(checked + 1)
           /\ checked' = checked + 1
